@@ -40,6 +40,7 @@ struct Counted
     Counted(Counted&& o) : x(o.x), magic(0xC0FFEEu)
     {
         if (o.magic != 0xC0FFEEu) ++g_bad;
+        o.x = 0xDEADBEEFDEADBEEFull; // a moved-from value is poisoned: storing or returning it afterwards is visible
         ++g_live;
     }
     Counted& operator=(const Counted& o)
@@ -52,6 +53,7 @@ struct Counted
     {
         if (magic != 0xC0FFEEu || o.magic != 0xC0FFEEu) ++g_bad;
         x = o.x;
+        if (&o != this) o.x = 0xDEADBEEFDEADBEEFull;
         return *this;
     }
     ~Counted()
